@@ -5,6 +5,8 @@ import (
 	"math"
 	"strconv"
 	"strings"
+	"unicode/utf16"
+	"unicode/utf8"
 
 	dtpb "github.com/google/fhir/go/proto/google/fhir/proto/r4/core/datatypes_go_proto"
 	"github.com/shopspring/decimal"
@@ -52,24 +54,89 @@ type String string
 
 // ParseString parses the input string and replaces FHIRPath
 // escape sequences with their Go-equivalent escape characters.
+//
+// The escapes are those of the FHIRPath grammar: \' \" \` \\ \/ \f \n \r \t and
+// \uXXXX (four hexadecimal digits naming a UTF-16 code unit; a surrogate that
+// cannot be paired decodes to the replacement character). A backslash in front
+// of any other character, or at the very end, is dropped and the character kept.
 func ParseString(input string) (String, error) {
-	escSequences := []string{
-		"\\'", "'",
-		"\\\"", "\"",
-		"\\`", "`",
-		"\\r", "\r",
-		"\\t", "\t",
-		"\\n", "\n",
-		"\\f", "\f",
-		"\\\\", "\\",
-		"\\", "",
-		// TODO PHP-5581
-	}
 	input = strings.TrimPrefix(input, "'")
 	input = strings.TrimSuffix(input, "'")
-	replacer := strings.NewReplacer(escSequences...)
-	escapedString := replacer.Replace(input)
-	return String(escapedString), nil
+	if !strings.Contains(input, "\\") {
+		return String(input), nil
+	}
+	var out strings.Builder
+	out.Grow(len(input))
+	for i := 0; i < len(input); i++ {
+		c := input[i]
+		if c != '\\' {
+			out.WriteByte(c)
+			continue
+		}
+		i++
+		if i >= len(input) {
+			// a lone backslash at the end is dropped
+			break
+		}
+		switch c = input[i]; c {
+		case 'r':
+			out.WriteByte('\r')
+		case 't':
+			out.WriteByte('\t')
+		case 'n':
+			out.WriteByte('\n')
+		case 'f':
+			out.WriteByte('\f')
+		case 'u':
+			unit, ok := hexUnit(input, i+1)
+			if !ok {
+				// not followed by four hexadecimal digits: not an escape
+				out.WriteByte(c)
+				continue
+			}
+			i += 4
+			r := rune(unit)
+			if utf16.IsSurrogate(r) {
+				// a high surrogate pairs with an immediately following \uXXXX low surrogate
+				if i+2 < len(input) && input[i+1] == '\\' && input[i+2] == 'u' {
+					if low, ok := hexUnit(input, i+3); ok {
+						if pair := utf16.DecodeRune(r, rune(low)); pair != utf8.RuneError {
+							out.WriteRune(pair)
+							i += 6
+							continue
+						}
+					}
+				}
+				r = utf8.RuneError
+			}
+			out.WriteRune(r)
+		default:
+			// \' \" \` \\ \/ and any unknown escape: the backslash is dropped
+			out.WriteByte(c)
+		}
+	}
+	return String(out.String()), nil
+}
+
+// hexUnit reads the four hexadecimal digits s[at:at+4] as one UTF-16 code unit.
+func hexUnit(s string, at int) (uint16, bool) {
+	if at < 0 || at+4 > len(s) {
+		return 0, false
+	}
+	var v uint16
+	for _, c := range []byte(s[at : at+4]) {
+		switch {
+		case c >= '0' && c <= '9':
+			v = v<<4 | uint16(c-'0')
+		case c >= 'a' && c <= 'f':
+			v = v<<4 | uint16(c-'a'+10)
+		case c >= 'A' && c <= 'F':
+			v = v<<4 | uint16(c-'A'+10)
+		default:
+			return 0, false
+		}
+	}
+	return v, true
 }
 
 // Equal returns true if the input value is a System String,
